@@ -5,6 +5,7 @@ import Driver.Io
 import Driver.Totp
 import Driver.Key
 import Driver.Merge
+import Driver.Kdbx4
 /-!
 `kpdriver`: reads one JSON case per line on stdin, runs the Lean model (and, where it differs, the reference
 specification) on the case's inputs and prints one JSON line per case:
@@ -22,6 +23,7 @@ def dispatch (op : String) (j : Json) : R Json :=
   | "totp" => opTotp j
   | "key" => opKey j
   | "merge" => opMerge j
+  | "kdbx4read" => opKdbx4Read j
   | "selftest" => opSelfTest j
   | _ => throw s!"unknown op {op}"
 
